@@ -11,6 +11,7 @@ for id in "$@"; do
   git -C /repo worktree add -q --detach $wt HEAD || continue
   # uncommitted contract edits in /repo are part of the machinery: copy them over
   (cd /repo && git diff) | (cd $wt && git apply 2>/dev/null)
+  (cd /repo && git ls-files -o --exclude-standard) | while read f; do mkdir -p $wt/$(dirname $f); cp /repo/$f $wt/$f; done
   if ! (cd $wt && git apply -C1 $d/patch.diff 2>/dev/null); then echo "SEED $id: patch does not apply"; git -C /repo worktree remove --force $wt; continue; fi
   out=$(VERIF_ROOT=/tmp/seedroot timeout 1500 /verif/bin/vgo check --repo $wt --property $prop 2>&1)
   rc=$?
